@@ -105,6 +105,13 @@ Proof.
   split; [|discriminate]. destruct (ref_groups r); [discriminate|]. destruct (ref_next_is_cont r); discriminate.
 Qed.
 
+Lemma ref_groups_cons l r :
+  ref_groups (l :: r) = match ref_groups r with
+                        | g :: gs => if ref_next_is_cont r then (l :: g) :: gs else [l] :: g :: gs
+                        | [] => [[l]]
+                        end.
+Proof. reflexivity. Qed.
+
 Lemma ref_groups_concat ls : concat (ref_groups ls) = ls.
 Proof.
   induction ls as [|l r IH]; cbn [ref_groups]; [reflexivity|].
@@ -266,10 +273,13 @@ Proof.
                 else let '(id, n0) := canon_name nm in
                      Some {| he_id := id; he_name := n0; he_value := c_str (rtrim (ltrim after)) |}
     end =
-    if (lenN nm =? 0) || negb (forallb cs_TCHAR nm) then None
-    else if 65534 <? lenN (rtrim (ltrim after)) then None
-    else Some {| he_id := fst (canon_name nm); he_name := snd (canon_name nm);
-                 he_value := c_str (rtrim (ltrim after)) |}).
+    match (if (lenN nm =? 0) || negb (forallb cs_TCHAR nm) then None
+           else if 65534 <? lenN (rtrim (ltrim after)) then None
+           else Some (nm, rtrim (ltrim after))) with
+    | Some (name0, value) =>
+      Some {| he_id := fst (canon_name name0); he_name := snd (canon_name name0); he_value := c_str value |}
+    | None => None
+    end).
   { intros nm. destruct nm as [|x xs]; [reflexivity|].
     replace (lenN (x :: xs) =? 0) with false by (cbn [lenN]; lia). cbn [orb].
     destruct (negb (forallb cs_TCHAR (x :: xs))); [reflexivity|].
@@ -393,7 +403,7 @@ Proof.
   - destruct (h_proc_line relaxed req ln (0 <? nl)) as [[[fe cr] b1]|]; [|reflexivity].
     match goal with |- (if ?c then _ else _) = _ => destruct c end.
     + destruct rest; [reflexivity|]. now apply IH.
-    + destruct (acc ++ fe).
+    + destruct (acc ++ fe) as [|b l].
       * destruct rest; [destruct rem; [contradiction|reflexivity]|reflexivity].
       * destruct (h_entry_parse req (b :: l)); [|reflexivity].
         match goal with |- (if ?c then _ else _) = _ => destruct c end; [reflexivity|].
@@ -437,7 +447,7 @@ Proof.
     assert (Hnp' : Forall NN (pre ++ [ln])) by (apply Forall_app; split; [exact Hnp|now constructor]).
     assert (Hok' : ref_lines_ok relaxed req true (pre ++ [ln]) = ref_line_ok relaxed req (isnil pre) ln).
     { rewrite lines_ok_app, Hok. cbn [andb ref_lines_ok]. now rewrite andb_true_r. }
-    cbn [ref_groups].
+    rewrite ref_groups_cons.
     destruct (ref_next_is_cont rest) eqn:Ec.
     + (* the next line continues this field *)
       destruct rest as [|n rest']; [discriminate|].
